@@ -77,6 +77,9 @@ func checkParts(scen string, in PartsIn) *mc.Violation {
 	if got != want {
 		return mc.V(scen, "parts-exact", in, fmt.Sprintf("%+v", want), fmt.Sprintf("%+v", got))
 	}
+	if again, err := parseVia(in.Via, in.text()); err != nil || again != want {
+		return mc.V(scen, "parts-exact", in, fmt.Sprintf("%+v", want), fmt.Sprintf("parsed a second time: %+v, %v", again, err))
+	}
 	// the predicates derived from the parts: native = no revision text, empty = the zero value (never a parsed one)
 	if n := got.IsNative(); n != (want.Revision == "") {
 		return mc.V(scen, "parts-exact", in, fmt.Sprintf("IsNative()=%v for %+v", want.Revision == "", want), fmt.Sprint(n))
@@ -149,6 +152,28 @@ func checkRT(scen string, in RTIn) []*mc.Violation {
 			w := version.Version{Version: v.Version, Revision: v.Revision}
 			if v6, err := version.Parse(so); err != nil || v6 != w {
 				out = append(out, mc.V(scen, "string-roundtrip", in, fmt.Sprintf("%+v", w), fmt.Sprintf("StringWithoutEpoch()=%q parses to %+v, %v", so, v6, err), feats...))
+			}
+		}
+		// the renderings the standard library derives from String / MarshalText: %v and %s of the value and of a pointer to
+		// it, the value inside a struct and a slice through encoding/json
+		for _, g := range []string{fmt.Sprintf("%v", v), fmt.Sprintf("%s", v), fmt.Sprintf("%v", &v), fmt.Sprint(v)} {
+			if g != s {
+				out = append(out, mc.V(scen, "string-roundtrip", in, fmt.Sprintf("fmt renders the value as String() does: %q", s), fmt.Sprintf("%q", g), feats...))
+				break
+			}
+		}
+		type holder struct {
+			V  version.Version
+			P  *version.Version
+			L  []version.Version
+			LP []*version.Version
+		}
+		vv0 := v
+		// (through a pointer to the struct: MarshalText has a pointer receiver, so encoding/json only finds it on addressable values)
+		if hb, err := json.Marshal(&holder{v, &vv0, []version.Version{v, v}, []*version.Version{&vv0}}); err == nil {
+			var h holder
+			if err := json.Unmarshal(hb, &h); err != nil || h.P == nil || len(h.L) != 2 || len(h.LP) != 1 || h.LP[0] == nil || *h.P != v || h.L[0] != v || h.L[1] != v || *h.LP[0] != v {
+				out = append(out, mc.V(scen, "json-roundtrip", in, fmt.Sprintf("%+v inside a struct, behind a pointer and in lists", v), fmt.Sprintf("json %s: %v %+v", hb, err, h), feats...))
 			}
 		}
 		c, err := v.MarshalControl()
